@@ -12,6 +12,8 @@ use serde_json::Value;
 pub enum Scn {
     Service(adaptive::Scn),
     Threads(threads::Scn13t),
+    /// the whole service driven from several threads (engine B)
+    SvcThreads(super::svcthreads::ScnT),
 }
 
 pub struct C13;
@@ -24,13 +26,18 @@ impl Prop for C13 {
         "asim + tsim (shuttle)"
     }
     fn gen(&self, rng: &mut Rng, _t: Tier) -> Value {
-        let s = if rng.chance(7, 10) { Scn::Service(adaptive::gen(rng)) } else { Scn::Threads(threads::gen13t(rng)) };
+        let s = match rng.below(20) {
+            0..=12 => Scn::Service(adaptive::gen(rng)),
+            13..=17 => Scn::Threads(threads::gen13t(rng)),
+            _ => Scn::SvcThreads(super::svcthreads::gen_adaptive(rng)),
+        };
         serde_json::to_value(s).unwrap()
     }
     fn valid(&self, v: &Value) -> bool {
         match parse::<Scn>(v) {
             Some(Scn::Service(s)) => adaptive::valid(&s),
             Some(Scn::Threads(s)) => threads::valid13t(&s),
+            Some(Scn::SvcThreads(s)) => super::svcthreads::valid(&s) && matches!(s.kind, super::svcthreads::Kind::Adaptive { .. }),
             None => false,
         }
     }
@@ -38,6 +45,7 @@ impl Prop for C13 {
         match parse::<Scn>(v).unwrap() {
             Scn::Service(s) => adaptive::run(&s, ctx),
             Scn::Threads(s) => threads::run13t(&s, ctx),
+            Scn::SvcThreads(s) => super::svcthreads::run(&s, ctx, "C13"),
         }
     }
     fn runs(&self, t: Tier) -> u64 {
